@@ -374,6 +374,16 @@ def check_dataset(case, root, pq, ctx=None, verbose=False):
         if case["bad_schema"] is not None:
             return pf           # different dtypes without verification: outside the statement
         nrows = sum(len(singles[j]) for j in order)
+        try:        # the row-group iterator of the merged handle walks the same rows in the same order
+            it_ids = [int(x) for fr in pf.iter_row_groups(columns=["id"]) for x in fr["id"]]
+            if it_ids != [int(x) for x in df["id"]]:
+                problems.append("%s: iter_row_groups() ids %r..., to_pandas() ids %r..." % (via, it_ids[:8], [int(x) for x in df["id"]][:8]))
+                if ctx is not None:
+                    ctx.fail(dict(cls, stage="iter"), _replayable(case), problems[-1])
+        except Exception as e:      # noqa
+            problems.append("%s: iter_row_groups() raised %s: %s" % (via, type(e).__name__, str(e)[:120]))
+            if ctx is not None:
+                ctx.fail(dict(cls, stage="iter"), _replayable(case), problems[-1])
         if pf.count() != nrows or int(pf.fmd.num_rows) != nrows:
             problems.append("%s: row count %r / num_rows %r, expected %d" % (via, pf.count(), pf.fmd.num_rows, nrows))
         # first everything but the categorical column, then the categorical column too (finding C14-categorical-labels)
